@@ -24,10 +24,11 @@ def unit_svf():
     for k, e in enumerate(entries[:-1]):
         t += f'    if (k == {k}) return _({e});\n'
     t += f'    return _({entries[-1]});\n}}\n#undef _\n'
-    g = block('btcdeb.cpp', r'^static const unsigned int svf_get_flag\(std::string s\)', trailing=None)
-    g = rewrite(g, [(r'for \(const auto& i : svf\) if \(i\.str == s\) return i\.id;', 'for (size_t verif_k = 0; verif_k < svf_count; ++verif_k) { const script_verify_flag i = svf_get(verif_k); if (i.str == s) return i.id; }', 1)])
+    g = block('btcdeb.cpp', r'^static const unsigned int svf_get_flag\(', trailing=None)
+    # R-RANGEFOR: `for (const auto& i : svf) STMT` -> index loop over the re-emitted table, same order, same statement
+    g = rewrite(g, [(r'for \(const auto& i : svf\) ([^\n]*)\n', r'for (size_t verif_k = 0; verif_k < svf_count; ++verif_k) { const script_verify_flag i = svf_get(verif_k); \1 }\n', 1)])
     t += g
-    p = block('btcdeb.cpp', r'^static unsigned int svf_parse_flags\(unsigned int in_flags, const char\* mod\)', trailing=None)
+    p = block('btcdeb.cpp', r'^static unsigned int svf_parse_flags\(', trailing=None)
     p = rewrite(p, [(r'exit\(1\);', 'VERIF_EXIT(1);', '+')])
     t += p
     t += '\n#include "h_svf.h"\n'
